@@ -660,7 +660,12 @@ impl FileSystem for OverlayFs {
     fn symlink(&self, ctx: &Context, linkname: &CStr, parent: Inode, name: &CStr) -> Result<Entry> {
         // soft link
         let sname = name.to_string_lossy().into_owned().to_owned();
-        let slinkname = linkname.to_string_lossy().into_owned().to_owned();
+        // The target is handled as a Rust string below: refuse one that is not valid UTF-8 instead of
+        // silently creating a link to a different (U+FFFD-mangled) target.
+        let slinkname = linkname
+            .to_str()
+            .map_err(|_| Error::from_raw_os_error(libc::EINVAL))?
+            .to_owned();
         trace!(
             "SYMLINK: linkname: {}, parent: {}, name: {}\n",
             linkname.to_string_lossy(),
